@@ -164,6 +164,20 @@ class Executor:
             sh["handles"] = {}
             self.shadows[mid] = sh
             return
+        if k == "alias_model":
+            # a second Problem over the SAME variable / parameter / expression objects
+            import optyx as ox
+
+            new_mid, src = op[1], op[2]
+            m0, sh0 = self.models[src], self.shadows[src]
+            m1 = S.Model()
+            m1.spec, m1.vars, m1.params, m1.elems, m1.exprs, m1.cons = m0.spec, m0.vars, m0.params, m0.elems, m0.exprs, m0.cons
+            m1.problem = ox.Problem(m0.spec.get("name"))
+            self.models[new_mid] = m1
+            # bound / domain edits and parameter values are properties of the shared objects
+            self.shadows[new_mid] = {"spec": sh0["spec"], "objective": None, "sense": "min", "cons": [],
+                                     "ov": sh0["ov"], "pv": sh0["pv"], "handles": {}}
+            return
         if k == "drop_model":
             self.models.pop(op[1], None)
             self.shadows.pop(op[1], None)
@@ -196,6 +210,52 @@ class Executor:
                     lst.append(o)
             P.subject_to(lst)
             sh["cons"].extend(op[2])
+        elif k == "redeclare":
+            # the user re-declares the model's variables / parameters under the SAME names (other
+            # domains, bounds, values), rebuilds the expressions and installs a new objective in
+            # the same Problem.  Only generated for problems without constraints, so that the
+            # problem then mentions the new objects only.
+            if sh["cons"]:
+                raise HarnessError("redeclare on a problem with constraints")
+            new = S.build_model(op[2], params_as_constants=self.pac)
+            m.spec, m.vars, m.params, m.elems, m.exprs, m.cons = new.spec, new.vars, new.params, new.elems, new.exprs, new.cons
+            m.handles = {}
+            getattr(P, op[3])(m.exprs[op[4]])
+            fresh = S.new_shadow(op[2])
+            sh.update(spec=op[2], objective=op[4], sense="min" if op[3] == "minimize" else "max", cons=[], ov=fresh["ov"], pv=fresh["pv"], handles={})
+        elif k == "subject_to_bad":
+            # a list with an invalid element at position op[3]: the call must raise; whatever part of
+            # the list the problem then reports as added (public n_constraints) is part of the model
+            lst = []
+            flat = []
+            for c in op[2]:
+                o = m.cons[c]
+                for item in (o if isinstance(o, list) else [o]):
+                    lst.append(item)
+                    flat.append(c)
+            pos = min(op[3], len(lst))
+            lst.insert(pos, "not a constraint")
+            before = P.n_constraints
+            try:
+                P.subject_to(lst)
+                rec["edit_exc"] = None
+            except Exception as e:  # noqa: BLE001
+                rec["edit_exc"] = type(e).__name__
+            added = P.n_constraints - before
+            rec["added"] = added
+            # shadow: the pool constraints whose expansion was added completely (prefix)
+            done, i = [], 0
+            for c in op[2]:
+                o = m.cons[c]
+                w = len(o) if isinstance(o, list) else 1
+                if i + w <= min(added, pos):
+                    done.append(c)
+                    i += w
+                else:
+                    break
+            if i != added:
+                raise HarnessError(f"subject_to_bad: {added} constraints were added, not expressible as a pool prefix ({i})")
+            sh["cons"].extend(done)
         elif k in ("set_lb", "set_ub", "set_domain"):
             attr = k[4:]
             setattr(m.elems[op[2]], attr, op[3])
@@ -282,7 +342,19 @@ class Executor:
         w = self.world
         obs = None
         if k == "solve":
+            if op[2].get("x0_prev"):
+                # warm start at the previous solution of this problem: resolved to explicit numbers
+                # here, so that the reference (which has no previous solve) starts from the same point
+                prev = getattr(m, "last_values", None)
+                names = sorted(S.problem_vars(sh), key=S.natural_key)
+                a2 = {kk: vv for kk, vv in op[2].items() if kk != "x0_prev"}
+                if prev is not None and names and all(n in prev and isinstance(prev[n], float) and prev[n] == prev[n] and abs(prev[n]) != float("inf") for n in names):
+                    a2["x0"] = [prev[n] for n in names]
+                    rec["warm_start"] = True
+                op = [op[0], op[1], a2]
             obs = self._solve(op, rec, m, sh)
+            if isinstance(obs, dict) and obs.get("values"):
+                m.last_values = {n: v for n, v in obs["values"].items()}
         else:
             try:
                 if k == "read_variables":
